@@ -48,6 +48,47 @@ type Store struct {
 	Clock    uint64
 	ErrOther error              // the definite error injected by FaultErr
 	Yield    func(point string) // scheduling point hook (set by threaded harnesses)
+	// Snapshots: GetTimestampOracle names the current state and Iter(timestamp) reads that state
+	// (an engine with snapshot reads, like TiKV); without it an iterator sees the state at the
+	// moment it is opened (memkv, Badger)
+	Snapshots bool
+	snaps     []snap
+}
+
+type snap struct {
+	ver  uint64
+	ents []Ent
+}
+
+// EnableSnapshots turns snapshot reads on from the current state.
+func (s *Store) EnableSnapshots() {
+	s.Snapshots = true
+	if s.Clock == 0 {
+		s.Clock = 1 // timestamp 0 means "latest"
+	}
+	s.snaps = []snap{{s.Clock, s.clone()}}
+}
+
+// changed records the state after a write that took effect.
+func (s *Store) changed() {
+	if s.Snapshots {
+		s.Clock++
+		s.snaps = append(s.snaps, snap{s.Clock, s.clone()})
+	}
+}
+
+// at returns the entries visible at timestamp ts.
+func (s *Store) at(ts uint64) []Ent {
+	if !s.Snapshots || ts == 0 {
+		return s.Ents
+	}
+	cur := s.snaps[0].ents
+	for _, sn := range s.snaps {
+		if sn.ver <= ts {
+			cur = sn.ents
+		}
+	}
+	return cur
 }
 
 var ErrInjected = storage.ErrUnavailable
@@ -104,7 +145,7 @@ func (s *Store) del(key []byte) {
 }
 
 // RawPut writes an entry directly (used by harnesses to build pre-states).
-func (s *Store) RawPut(key, val []byte) { s.put(key, val, 0) }
+func (s *Store) RawPut(key, val []byte) { s.put(key, val, 0); s.changed() }
 
 // RawGet reads an entry directly (no fault, no yield).
 func (s *Store) RawGet(key []byte) ([]byte, bool) {
@@ -128,6 +169,9 @@ func (s *Store) GetTimestampOracle(ctx context.Context) (uint64, error) {
 	defer s.yield("tso-done")
 	if s.ClockFn != nil {
 		return s.ClockFn(), nil
+	}
+	if s.Snapshots {
+		return s.Clock, nil
 	}
 	s.Clock++
 	return s.Clock, nil
@@ -174,22 +218,23 @@ func (s *Store) Iter(ctx context.Context, start []byte, end []byte, timestamp ui
 	defer s.yield("iter-done")
 	s.NIters++
 	it := &iter{pos: -1}
+	ents := s.at(timestamp)
 	if bytes.Compare(start, end) <= 0 {
-		for i := range s.Ents {
-			k := s.Ents[i].Key
+		for i := range ents {
+			k := ents[i].Key
 			if bytes.Compare(k, start) >= 0 && bytes.Compare(k, end) < 0 {
-				it.ents = append(it.ents, Ent{Key: cp(k), Val: cp(s.Ents[i].Val)})
+				it.ents = append(it.ents, Ent{Key: cp(k), Val: cp(ents[i].Val)})
 			}
 		}
 	} else {
-		for i := len(s.Ents) - 1; i >= 0; i-- {
-			k := s.Ents[i].Key
+		for i := len(ents) - 1; i >= 0; i-- {
+			k := ents[i].Key
 			if bytes.Compare(k, start) <= 0 {
 				if bytes.Compare(k, end) > 0 {
-					it.ents = append(it.ents, Ent{Key: cp(k), Val: cp(s.Ents[i].Val)})
+					it.ents = append(it.ents, Ent{Key: cp(k), Val: cp(ents[i].Val)})
 				} else if s.LooseReverseFirst && len(it.ents) == 0 {
 					// engine yields the greatest key <= start even when it is outside the interval
-					it.ents = append(it.ents, Ent{Key: cp(k), Val: cp(s.Ents[i].Val)})
+					it.ents = append(it.ents, Ent{Key: cp(k), Val: cp(ents[i].Val)})
 					break
 				}
 			}
@@ -320,6 +365,7 @@ func (b *batch) Commit(ctx context.Context) error {
 	if err == nil {
 		s.NApplied++
 	}
+	s.changed()
 	if s.OnCommit != nil {
 		s.OnCommit(b.ops, err)
 	}
@@ -337,9 +383,11 @@ func (s *Store) Del(ctx context.Context, key []byte) error {
 		return storage.NewErrUncertainResult(ErrInjected)
 	case FaultUnknownApplied:
 		s.del(key)
+		s.changed()
 		return storage.NewErrUncertainResult(ErrInjected)
 	}
 	s.del(key)
+	s.changed()
 	return nil
 }
 
@@ -359,6 +407,7 @@ func (s *Store) DelCurrent(ctx context.Context, it storage.Iter) error {
 		return s.conflict(0, key, nil)
 	}
 	s.del(key)
+	s.changed()
 	if f == FaultUnknownApplied {
 		return storage.NewErrUncertainResult(ErrInjected)
 	}
